@@ -100,6 +100,12 @@ def eval_internal(work, repo, patch, demo, demo_dir, meta, sid, props):
     def stage(tag):
         m = os.path.join(work, "mod_" + tag)
         os.makedirs(m)
+        if sub == "pipe":
+            # internal/pipe declares `package pure` and its test imports github.com/fogfish/golem/pure: a module of its own
+            shutil.copytree(os.path.join(repo, "internal", "pipe"), os.path.join(m, "pipe"))
+            open(os.path.join(m, "pipe", "go.mod"), "w").write("module github.com/fogfish/golem/pure\n\ngo 1.22\n\nrequire github.com/fogfish/it v1.0.0\n")
+            shutil.copy(os.path.join(repo, "pure", "go.sum"), os.path.join(m, "pipe", "go.sum"))
+            return m
         open(os.path.join(m, "go.mod"), "w").write("module github.com/fogfish/golem\n\ngo 1.22\n\nrequire github.com/fogfish/golem/pure v0.10.1\n\nreplace github.com/fogfish/golem/pure => %s/pure\n" % repo)
         shutil.copy(os.path.join(repo, "pure", "go.sum"), os.path.join(m, "go.sum"))
         for d in os.listdir(os.path.join(repo, "internal")):
@@ -114,9 +120,11 @@ def eval_internal(work, repo, patch, demo, demo_dir, meta, sid, props):
     rc, out = sh("git apply %s" % patch, cwd=repo)
     res["applies"] = rc == 0
     m = stage("patched")
-    rc, out = sh("go build ./%s/... 2>&1 | tail -5" % sub.split("/")[0], cwd=m, env=env)
+    tcwd = os.path.join(m, "pipe") if sub == "pipe" else m
+    tpat = "./..." if sub == "pipe" else "./%s/..." % sub.split("/")[0]
+    rc, out = sh("go build %s 2>&1 | tail -5" % tpat, cwd=tcwd, env=env)
     res["builds"] = rc == 0 and "rror" not in out
-    rc, out = sh("go test -count=1 ./%s/... 2>&1 | tail -15" % sub.split("/")[0], cwd=m, env=env)
+    rc, out = sh("go test -count=1 %s 2>&1 | tail -15" % tpat, cwd=tcwd, env=env)
     res["existing_tests_pass"] = "FAIL" not in out
     shutil.copy(demo, os.path.join(m, sub, "zz_seeded_demo_test.go"))
     rc, out = sh("go test -count=1 -run %s . 2>&1 | tail -25" % runpat, cwd=os.path.join(m, sub), env=env)
